@@ -6,6 +6,7 @@ import (
 	"log"
 	"os"
 	"path/filepath"
+	"sort"
 	"strings"
 
 	"github.com/lopolopen/shoot/internal/constructor"
@@ -85,6 +86,7 @@ func main() {
 		return
 	}
 
+	sort.Strings(fileNames)
 	log.Printf("🎉 go generate successfully: [%s]\n", strings.Join(flag.Args(), " "))
 	for _, fn := range fileNames {
 		log.Printf("\t%s\n", fn)
